@@ -154,6 +154,14 @@ Theorem c13_k5_refuted : exists c, C13_mismatch c = false /\ C13_monitor c = 6 /
 Proof. exact k5_refuted. Qed.
 Print Assumptions c13_k5_refuted.
 
+(* known finding K6 lives in a command family the model does not interpret (DeleteChannel does
+   not reset the subscriber overlay of its batch): a corpus case with the real observations on
+   which the monitor returns code 7; covered by the implementation's partition self-consistency
+   run only, no model-level refutation *)
+Theorem c13_k6_witness : exists c, c_modelled c = false /\ C13_monitor c = 7.
+Proof. exact k6_witness. Qed.
+Print Assumptions c13_k6_witness.
+
 (* ---- the decoder ---------------------------------------------------------------------------------------------- *)
 
 (* a TLV field consumes at least its header and never more bytes than there are *)
@@ -226,12 +234,12 @@ Print Assumptions c13_model_satisfies_monitor.
    succeeds; two different partitions give the same tables *)
 Definition ex_cfg : fsm_cfg := Cfg 11 [11; 12] 11 false [(12, (21, migrationPhaseDelta))].
 Definition ex_log : list fcmd := to_fcmds 1
-  [ Entry true 12 (HUser false (hx "7531") (hx "61") 0%Z 0%Z) (hx "0101") None;
-    Entry true 11 (HDelta 31 7 11 (Some (HUser true (hx "7532") (hx "62") 1%Z 0%Z))) [] None;
-    Entry true 12 (HFence 12 0) (hx "0115") None;
-    Entry true 12 (HUser false (hx "7533") (hx "63") 0%Z 0%Z) (hx "0101") None;
-    Entry true 12 (HAck 12 11 21 1) [] None;
-    Entry true 11 (HDelta 31 7 11 (Some (HUser true (hx "7532") (hx "64") 1%Z 0%Z))) [] None ].
+  [ Entry true 12 (HUser false (hx "7531") (hx "61") 0%Z 0%Z) (hx "0101") None None;
+    Entry true 11 (HDelta 31 7 11 (Some (HUser true (hx "7532") (hx "62") 1%Z 0%Z))) [] None None;
+    Entry true 12 (HFence 12 0) (hx "0115") None None;
+    Entry true 12 (HUser false (hx "7533") (hx "63") 0%Z 0%Z) (hx "0101") None None;
+    Entry true 12 (HAck 12 11 21 1) [] None None;
+    Entry true 11 (HDelta 31 7 11 (Some (HUser true (hx "7532") (hx "64") 1%Z 0%Z))) [] None None ].
 
 Example c13_example_good : forallb (fun c => good_hcmd (fc_cmd c)) ex_log = true.
 Proof. vm_compute. reflexivity. Qed.
